@@ -531,6 +531,10 @@ func c12(tier string) int {
 	// feeder type (push-only logs included): the witness map, the HTTP
 	// endpoint and the list handed to the distributor name the same logs.
 	c12MainLists(run, u)
+	// Context leg: an abandoned update of log A leaves log B untouched and usable.
+	ctxLeg(run, "C12")
+	// Twin leg: two IDs configured with one origin line.
+	twinLeg(run, "C12")
 	idn := c12Identity(run, u)
 	run.Set("identity_cases", idn)
 	run.Sample(map[string]any{"product_state_example": "[" + strings.Join([]string{"2:<root of A>", "⊥"}, " | ") + "]", "request": "cross: checkpoint of log-c@3 under the ID of log-a old=2"})
@@ -605,4 +609,115 @@ func c12MainLists(run *ev.Run, u *uni.U) {
 	}
 	mainLogLists(run, "one-log-of-every-feeder-type", "a configuration with one log of every feeder type", []byte(mixed))
 	run.Add("main_configurations", 1)
+}
+
+// twinLeg (shared by C01 and C12): two configured logs with DIFFERENT IDs but
+// the same origin line (and key) - witness.Opts.KnownLogs allows it and the
+// repository's own tests configure it ("monkeys"/"bananas" under one origin).
+// Every interleaving of an honest history of A (first use 2, growth 4,
+// same-size 4, growth 6) with an honest history of B (first use 3, growth 5),
+// both stores; after every step what is held under each ID is exactly that
+// ID's last accepted checkpoint (C12: a request naming B does not touch A),
+// and a same-size fork and a fork growth of each log are refused and change
+// nothing (C01: one append-only history per log ID).
+func twinLeg(run *ev.Run, prop string) int64 {
+	u := uni.New(ev.Seed(), 8, []int{0})
+	gen := wh.NewCPGen(u)
+	origin := "verif.example/twins"
+	la := wh.LogCfg{Origin: origin, Key: u.K1, CustomID: "twin-a"}
+	lb := wh.LogCfg{Origin: origin, Key: u.K1, CustomID: "twin-b"}
+	m, f := u.Main, u.Forks[0]
+	type step struct {
+		l      wh.LogCfg
+		old, n int
+	}
+	as := []step{{la, 0, 2}, {la, 2, 4}, {la, 4, 4}, {la, 4, 6}}
+	bs := []step{{lb, 0, 3}, {lb, 3, 5}}
+	var orders [][]step
+	var rec func(i, j int, cur []step)
+	rec = func(i, j int, cur []step) {
+		if i == len(as) && j == len(bs) {
+			orders = append(orders, append([]step{}, cur...))
+			return
+		}
+		if i < len(as) {
+			rec(i+1, j, append(cur, as[i]))
+		}
+		if j < len(bs) {
+			rec(i, j+1, append(cur, bs[j]))
+		}
+	}
+	rec(0, 0, nil)
+	var n int64
+	for _, store := range []string{"mem", "sql"} {
+		for oi, ord := range orders {
+			e := wh.NewEnv(u, wh.Config{Store: store, Logs: []wh.LogCfg{la, lb}})
+			held := map[string]string{} // ID -> text last accepted
+			size := map[string]int{}
+			var names []string
+			bad := false
+			for si, st := range ord {
+				cp, meta := gen.Get(st.l, m, st.n, "plain")
+				names = append(names, fmt.Sprintf("%s %d->%d", st.l.CustomID, st.old, st.n))
+				rep := map[string]any{"kind": "twin-logs", "store": store, "order": oi, "step": si, "history": names}
+				out := e.Do(wh.Req{LogID: st.l.ID(), Old: uint64(st.old), CP: cp, Proof: m.Proof(st.old, st.n), Meta: meta})
+				n++
+				if e.Blocked {
+					run.Report("twin-logs store-blocked", fmt.Sprintf("%s store, two IDs with one origin, history %v: the call did not return", store, names), rep)
+					bad = true
+					break
+				}
+				if out.Class != wh.OK {
+					if prop == "C12" {
+						run.Report("twin-logs honest-step-refused verdict="+out.Class, fmt.Sprintf("%s store, two IDs with one origin, history %v: the honest step of %s was answered %s (%v) - it depends on requests that named the other ID", store, names, st.l.CustomID, out.Class, out.Err), rep)
+					}
+					bad = true
+					break
+				}
+				held[st.l.ID()], size[st.l.ID()] = meta.Text, st.n
+				snap := e.Snap()
+				for _, l := range []wh.LogCfg{la, lb} {
+					text, _, _ := uni.SplitNote([]byte(snap.ByID[l.ID()]))
+					if text != held[l.ID()] {
+						if prop == "C12" {
+							run.Report("twin-logs other-log-changed", fmt.Sprintf("%s store, two IDs with one origin, history %v: after a request naming %s the witness holds for %s something else than that ID's last accepted checkpoint (holds %d bytes)", store, names, st.l.CustomID, l.CustomID, len(snap.ByID[l.ID()])), rep)
+						}
+						bad = true
+					}
+				}
+				// Forks of each log that has a checkpoint: refused, nothing changes.
+				for _, l := range []wh.LogCfg{la, lb} {
+					s, ok := size[l.ID()]
+					if !ok {
+						continue
+					}
+					before := e.Snap()
+					cpS, mS := gen.Get(l, f, s, "plain")
+					cpG, mG := gen.Get(l, f, s+1, "plain")
+					for _, pr := range []wh.Req{{LogID: l.ID(), Old: uint64(s), CP: cpS, Meta: mS, Label: "same-size fork"}, {LogID: l.ID(), Old: uint64(s), CP: cpG, Proof: f.Proof(s, s+1), Meta: mG, Label: "fork growth"}} {
+						o := e.Do(pr)
+						n++
+						if o.Class == wh.OK || !e.Snap().Equal(before) {
+							if prop == "C01" {
+								run.Report("twin-logs fork-accepted probe="+strings.ReplaceAll(pr.Label, " ", "-"), fmt.Sprintf("%s store, two IDs with one origin, history %v: a %s of %s at size %d was answered %s / changed the state: two inconsistent checkpoints cosigned for one log ID", store, names, pr.Label, l.CustomID, s, o.Class), rep)
+							}
+							bad = true
+						}
+					}
+				}
+				if bad {
+					break
+				}
+			}
+			if !bad {
+				run.Hist("twin_logs", store+": histories in which both IDs kept their own state")
+			}
+			if !e.Blocked {
+				e.Close()
+			}
+		}
+	}
+	run.Set("twin_log_interleavings", len(orders))
+	run.Add("twin_log_requests", n)
+	return n
 }
